@@ -9,6 +9,7 @@ import GontainerModel.Lemmas.Graph
 import GontainerModel.Lemmas.DepGraph
 import GontainerModel.Model.Output
 import GontainerModel.Lemmas.ParamFuel
+import GontainerModel.Lemmas.Rank
 namespace GM.C07
 open GM GM.Graph GM.Output
 
@@ -100,6 +101,22 @@ theorem param_eval_terminates_partial (p : Runtime.Prog) (rk : String → Nat) (
     (st : Runtime.St) (f g : Nat) (hf : Runtime.bound rk id ≤ f) (hg : Runtime.bound rk id ≤ g) :
     Runtime.getParam f p st id = Runtime.getParam g p st id :=
   Runtime.getParam_stable p rk hr id st f g hf hg
+
+/-- … and **every program whose compiled dependency graph is acyclic has such a rank** (the number of nodes reachable in the
+graph the cycle validator inspects), provided the recorded dependencies of a parameter cover the references the runtime follows
+(the compile side of that is `C06.pattern_deps_all_refs`): for an accepted configuration the recursion budget never decides an
+answer -/
+theorem param_eval_terminates_acyclic (p : Runtime.Prog) (hac : cyclic (buildGraph p.out) = false)
+    (hd : Runtime.ParamDepsRecorded p) (id : String) (st : Runtime.St) (f g : Nat)
+    (hf : Runtime.bound (fun n => rankOf (buildGraph p.out) (nParam n)) id ≤ f)
+    (hg : Runtime.bound (fun n => rankOf (buildGraph p.out) (nParam n)) id ≤ g) :
+    Runtime.getParam f p st id = Runtime.getParam g p st id :=
+  Runtime.getParam_stable p _ (Runtime.ranked_of_acyclic p hac hd) id st f g hf hg
+
+/-- the rank is bounded by the size of the graph, so `2·|V| + 3` is a budget that suffices for every parameter -/
+theorem rank_le_nodes (o : Output) (a : Node) : rankOf (buildGraph o) a ≤ (buildGraph o).nodes.length := by
+  unfold rankOf
+  exact List.length_filter_le _ _
 
 -- non-vacuity: a two-level chain of parameters is ranked
 def demoParams : Runtime.Prog :=
